@@ -272,6 +272,9 @@ pub fn size_world() -> World {
         mbs[0] = flat_mb(2);
         ops.push(GOp::pic(&format!("P({w}x{h})"), Pic { hdr: shdr(w, h, 1, 10 + si as u8, 5, 0), mbs: mbs.clone() }));
         ops.push(GOp::pic(&format!("D({w}x{h})"), Pic { hdr: shdr(w, h, 2, 20 + si as u8, 5, 0), mbs }));
+        // nothing coded at all: every macroblock skipped, and a header with no macroblock data
+        ops.push(GOp::pic(&format!("P-skip({w}x{h})"), Pic { hdr: shdr(w, h, 1, 30 + si as u8, 5, 0), mbs: (0..n).map(|_| Mb::NotCoded).collect() }));
+        ops.push(GOp::pic(&format!("D-empty({w}x{h})"), Pic { hdr: shdr(w, h, 2, 40 + si as u8, 5, 0), mbs: vec![] }));
     }
     ops.push(GOp::Cleanup);
     World { opts: 1, ops }
